@@ -33,6 +33,8 @@ FILES = {
     '~/f.txt': b'tilde f', '~/sub/g.txt': b'tilde g', '$HOME/f.txt': b'dollar f', '~nobody-verif/f.txt': b'tilde user f',
     'home/f.txt': b'HOME-DECOY f', 'home/sub/g.txt': b'HOME-DECOY g', 'home/secret.txt': b'HOME-DECOY secret', 'home/static/f.txt': b'HOME-DECOY static',
     '~/static/f.txt': b'tilde static f',
+    # a directory whose name holds the path-list separator (host:port style), with same-named decoys in the directory before the colon
+    'srv:8080/pub/f.txt': b'colon f', 'srv:8080/pub/sub/g.txt': b'colon g', 'srv/f.txt': b'SRV-DECOY f', 'srv/sub/g.txt': b'SRV-DECOY g', '8080/pub/f.txt': b'PORT-DECOY f',
     'site2/root/f.txt': b'site2 f', 'site2/root/sub/g.txt': b'site2 g', 'site2/top.txt': b'SITE2-TOP-DECOY', 'site2/root2/decoy.txt': b'SITE2-ROOT2-DECOY',
 }
 SEGS = ['Root', 'ROOT', 'SUB', 'Deep', 'F.TXT', 'f.txt', 'sub', 'g.txt', 'deep', 'h.txt', '.hidden', 'we ird.txt', 'a\\b.txt', '.', '..', '..', '..', '', '...', 'root', 'root2', 'rootx', 'root_backup',
@@ -40,7 +42,7 @@ SEGS = ['Root', 'ROOT', 'SUB', 'Deep', 'F.TXT', 'f.txt', 'sub', 'g.txt', 'deep',
         # dot-dot with a control character inside / beside it (a name filter that drops such characters would turn these into '..')
         '.\0.', '..\n', '\r..', '.\r.', '..\0', '.\n.', '\0..', '. .', '.\t.', '..;', '%2e%2e', '.%00.']
 SEPS = ['/', '/', '/', '\\', '\\', '//', '/./', '\\\\', '/\\', '\\/']
-ROOTS = ['abs', 'abs/', 'abs//', 'rel', './rel', 'rel/', 'detour', 'nested', 'nested/', 'abs/.', 'rel\\', '~', '~/', './~', '~/static', '$HOME', '~nobody-verif', 'empty', 'dot', 'dot/']
+ROOTS = ['abs', 'abs/', 'abs//', 'rel', './rel', 'rel/', 'detour', 'nested', 'nested/', 'abs/.', 'rel\\', '~', '~/', './~', '~/static', '$HOME', '~nobody-verif', 'empty', 'dot', 'dot/', 'colon', 'colon_rel', 'colon/']
 PREFIXES = ['', '', '', '/', '\\', '//', '../', '..\\', '<base>/', '<root>/', '/etc/', './', '<base>', '/../', '../backup<root>/', '../../backup<root>/', 'mirror<root>/', '../backup<base>/']
 
 _STATE = {}
@@ -82,6 +84,9 @@ def cleanup():
 def root_of(spec, base, cwd=None):
     """(root argument given to static_file, true absolute root directory); relative spellings are relative to the working directory"""
     R = base + '/root'
+    if spec in ('colon', 'colon_rel', 'colon/'):
+        here = cwd or base
+        return {'colon': (here + '/srv:8080/pub', here + '/srv:8080/pub'), 'colon_rel': ('srv:8080/pub', here + '/srv:8080/pub'), 'colon/': (here + '/srv:8080/pub/', here + '/srv:8080/pub')}[spec]
     if spec in ('empty', 'dot', 'dot/'):
         # the working directory itself as root, spelled '' (what os.path.dirname('app.py') gives), '.' or './'
         return {'empty': '', 'dot': '.', 'dot/': './'}[spec], (cwd or base)
